@@ -1869,9 +1869,26 @@ func (c *cluster) nodeJoin(node *Node) error {
 	if err := c.unprotectedSetStateAndBroadcast(ClusterStateResizing); err != nil {
 		return errors.Wrap(err, "broadcasting state")
 	}
-	c.joiningLeavingNodes <- nodeAction{node, resizeJobActionAdd}
+	c.enqueueNodeAction(nodeAction{node, resizeJobActionAdd})
 
 	return nil
+}
+
+// enqueueNodeAction hands a join or leave to listenForJoins. It must not
+// block: the caller holds c.mu, which the job that is running (and that has
+// to finish before the queue is read again) needs in order to complete.
+func (c *cluster) enqueueNodeAction(a nodeAction) {
+	select {
+	case c.joiningLeavingNodes <- a:
+	default:
+		// The queue is full; wait for room without holding the caller.
+		go func() {
+			select {
+			case c.joiningLeavingNodes <- a:
+			case <-c.closing:
+			}
+		}()
+	}
 }
 
 // nodeLeave initiates the removal of a node from the cluster.
@@ -1923,7 +1940,7 @@ func (c *cluster) nodeLeave(nodeID string) error {
 	if err := c.unprotectedSetStateAndBroadcast(ClusterStateResizing); err != nil {
 		return errors.Wrap(err, "broadcasting state")
 	}
-	c.joiningLeavingNodes <- nodeAction{node: &Node{ID: nodeID}, action: resizeJobActionRemove}
+	c.enqueueNodeAction(nodeAction{node: &Node{ID: nodeID}, action: resizeJobActionRemove})
 
 	return nil
 }
